@@ -43,10 +43,12 @@ contract("parse:Parser._has_leading_zero",
 
 # parse_query: the segment parser (bracketed selections, slices, shorthand names) is not under contract yet: assumed to yield
 # well-formed segments; it calls back into parse_filter_selector, which is verified below
-contract("parse:Parser.parse_query", trusted=True, mutates=ST, requires=P_REQ,
+contract("parse:Parser.parse_query", mutates=ST, requires=P_REQ + ["is_bool(in_filter)"],
     yields=["all(isinstance(s, JSONPathSegment) and s.env == self.env and wf_segment(s, self.env) for s in out)"], ensures=[], raises=ERR,
-    raises_ensures=P_EXC, props=["C05"],
-    note="segment/selector parser: outside what is verified here (bounded C03/C04/C05 runs decide it); assumed to yield well-formed segments")
+    raises_ensures=P_EXC, unfold=["wf_segment", "wf_env", "py_eq"],
+    loops={1: ["all(isinstance(s, JSONPathSegment) and s.env == self.env and wf_segment(s, self.env) for s in out)", "ts_inv(stream)"]},
+    props=["C05", "C13"],
+    note="the segment loop: every segment yielded is well formed (its selectors come from parse_selectors)")
 
 TBL = {"self.token_map": "token_map", "self.function_argument_map": "function_argument_map"}
 UNF = ["wf_env", "wf_registry", "wf_func", "wf_query", "wf_call_e", "wf_prefix_e", "wf_logical_e", "wf_comparison_e", "wf_filter_e", "py_eq"]
@@ -80,3 +82,30 @@ contract("parse:Parser.parse_function_extension", heavy=True, mutates=ST, requir
 contract("parse:Parser.parse_filter_selector", mutates=ST, requires=P_REQ,
     ensures=["isinstance(result, FilterSelector)", "wf_selector(result, self.env)", "ts_inv(stream)"], raises=ERR, raises_ensures=P_EXC,
     unfold=UNF + ["wf_selector"], dispatch=TBL, depth=4, props=["C05", "C13"])
+
+# ---- segment / selector parser ----
+SEL_ENS = ["is_tuple(result) or is_arr(result)", "wf_selectors(seq(result), self.env)", "ts_inv(stream)"]
+contract("parse:Parser.parse_slice", heavy=True, mutates=ST, requires=P_REQ,
+    note="discharged (0 undecided) but takes 2-3 minutes: run in the thorough tier only",
+    ensures=["isinstance(result, SliceSelector)", "result.env == self.env", "wf_selector(result, self.env)", "ts_inv(stream)"],
+    raises=ERR, raises_ensures=P_EXC, unfold=["wf_selector", "wf_env", "tok_text_ok", "py_eq"], props=["C05", "C13"])
+contract("parse:Parser.parse_slice.<locals>._maybe_index",
+    requires=["is_tok(token)"], ensures=["result == (token.type_ == TokenType.INDEX)"], raises=["JSONPathSyntaxError"], unfold=["py_eq"], props=["C13"])
+contract("parse:Parser.parse_bracketed_selection", heavy=True, mutates=ST, requires=P_REQ,
+    note="discharged (0 undecided) but takes 5-6 minutes: run in the thorough tier only",
+    ensures=["is_arr(result)", "wf_selectors(seq(result), self.env)", "ts_inv(stream)"],
+    raises=ERR, raises_ensures=P_EXC, unfold=["wf_selector", "wf_env", "tok_text_ok", "py_eq"],
+    loops={1: ["is_arr(selectors)", "wf_selectors(seq(selectors), self.env)", "ts_inv(stream)", "is_tok(tok)"]}, props=["C05", "C13"])
+contract("parse:Parser.parse_selectors", mutates=ST, requires=P_REQ,
+    ensures=["is_tuple(result)", "wf_selectors(seq(result), self.env)", "ts_inv(stream)"],
+    raises=ERR, raises_ensures=P_EXC, unfold=["wf_selector", "wf_env", "py_eq"], props=["C05", "C13"])
+
+Q_YIELDS = ["all(isinstance(s, JSONPathSegment) and s.env == self.env and wf_segment(s, self.env) for s in out)"]
+
+contract("tokens:TokenStream.__init__", trusted=True, requires=["is_arr(token_iter)"], ensures=["ts_inv(self)"], raises=[], props=["C05"],
+    note="iterator / deque based: assumed to leave a current token; that lexer-made tokens satisfy is_tok (string value, TokenType, integer offset, "
+         "and the text guarantees of the lexer's regular expressions) is part of this assumption")
+
+contract("parse:Parser.parse", mutates=ST, requires=P_REQ,
+    yields=["all(isinstance(s, JSONPathSegment) and s.env == self.env and wf_segment(s, self.env) for s in out)"], ensures=[], raises=ERR,
+    raises_ensures=P_EXC, unfold=["py_eq"], props=["C05", "C13"])
